@@ -41,6 +41,7 @@ HFILES = {
     'sourceview': ('sourceview', 'verif_h', [], False),
     'hermes': ('hermes', 'verif_h', ['vlq', 'types'], False),
     'hermes_fm': ('hermes', 'verif_h_fm', ['vlq'], True),
+    'hermes_line': ('hermes', 'verif_h_line', ['vlq'], True),
     'ram_bundle': ('ram_bundle', 'verif_h', [], False),
 }
 
